@@ -63,6 +63,12 @@ type umsg struct {
 	Arg string
 }
 
+// asTick is what a scripted actor's Loop job delivers to it (not a numbered message: it repeats)
+type asTick struct {
+	X     *asExec
+	Owner string
+}
+
 type evA struct{ ID int }
 type evB struct{ ID int }
 
@@ -274,6 +280,8 @@ func (a *scriptActor) handle(ctx vivid.ActorContext, depth int) {
 	case umsg:
 		x.ev(map[string]any{"e": "Deliv", "a": a.name, "k": "user", "m": m.ID, "i": a.inst, "s": m.Op, "n": depth})
 		a.doOp(ctx, m)
+	case asTick:
+		x.ev(map[string]any{"e": "SchedTick", "a": a.name, "i": a.inst})
 	case evA:
 		x.ev(map[string]any{"e": "Deliv", "a": a.name, "k": "event", "m": m.ID, "i": a.inst, "s": "A"})
 	case evB:
@@ -311,6 +319,28 @@ func (a *scriptActor) doOp(ctx vivid.ActorContext, m umsg) {
 			top = a.bstack[len(a.bstack)-1]
 		}
 		x.ev(map[string]any{"e": "Become", "a": a.name, "n": top})
+	case "sched-once", "sched-loop", "sched-cancel":
+		// jobs of the actor itself under one fixed reference (re-use of the reference after Cancel is part of the point);
+		// the scheduled message is an ordinary scripted message whose operation is m.Arg ("nop", "stash")
+		sch := ctx.Scheduler()
+		switch m.Op {
+		case "sched-cancel":
+			_ = sch.Cancel("r")
+			x.ev(map[string]any{"e": "SchedCancel", "a": a.name})
+		default:
+			id := x.newID()
+			op := m.Arg
+			if op == "" {
+				op = "nop2"
+			}
+			x.ev(map[string]any{"e": "Sched", "a": a.name, "m": id, "s": m.Op})
+			if m.Op == "sched-once" {
+				x.ev(map[string]any{"e": "Tell", "a": a.name, "p": a.name, "m": id, "s": op})
+				_ = sch.Once(ctx.Ref(), 2*time.Millisecond, umsg{ID: id, Op: op}, vivid.WithSchedulerReference("r"))
+			} else {
+				_ = sch.Loop(ctx.Ref(), 3*time.Millisecond, asTick{X: x, Owner: a.name}, vivid.WithSchedulerReference("r"))
+			}
+		}
 	case "stash":
 		ctx.Stash()
 		x.ev(map[string]any{"e": "Stashed", "a": a.name, "m": m.ID, "n": ctx.StashCount()})
@@ -441,6 +471,14 @@ func (o *observer) OnReceive(ctx vivid.ActorContext) {
 			e["k"], e["m"] = "event", um.ID
 		case evB:
 			e["k"], e["m"] = "event", um.ID
+		case asTick:
+			e["k"], e["a"] = "schedtick", um.Owner
+		case *actor.SchedulerMessage:
+			if tk, ok := um.Message.(asTick); ok {
+				e["k"], e["a"] = "schedtick", tk.Owner
+			} else if u2, ok := um.Message.(umsg); ok {
+				e["k"], e["m"] = "user", u2.ID
+			}
 		case *vivid.OnKill:
 			e["k"] = "kill"
 		case *vivid.OnKilled:
@@ -504,7 +542,17 @@ func newASExec(sc *asScenario) (*asExec, error) {
 		}
 		return mine, gate
 	}
-	c.Filter = func(point string, obj any) bool { m, _ := belongs(obj); return m }
+	c.Filter = func(point string, obj any) bool {
+		if point == "sched.fire" {
+			// the job function of a scripted actor's Loop job has been entered (an uncontrolled goroutine of the timer)
+			if tk, ok := obj.(asTick); ok && tk.X == x {
+				x.ev(map[string]any{"e": "SchedFire", "a": tk.Owner})
+			}
+			return false
+		}
+		m, _ := belongs(obj)
+		return m
+	}
 	c.PassFn = func(point string, obj any) bool {
 		if point != "mb.ph.pop_sys" {
 			return true
